@@ -27,6 +27,7 @@ type Plan struct {
 	Match   string
 	QueryN  int
 	FailRow int
+	Err     error // the error to inject (nil: ErrRow)
 }
 
 var (
@@ -204,7 +205,11 @@ func (r *rows) Next(dest []driver.Value) error {
 		}
 		mu.Lock()
 		fired++
+		injected := plan.Err
 		mu.Unlock()
+		if injected != nil {
+			return injected
+		}
 		return ErrRow
 	}
 	return r.Rows.Next(dest)
@@ -216,4 +221,45 @@ func (r *rows) ColumnTypeDatabaseTypeName(i int) string {
 		return c.ColumnTypeDatabaseTypeName(i)
 	}
 	return ""
+}
+
+// GenuineBusy provokes a real SQLITE_BUSY from the real driver on a scratch database (one connection
+// holds the write lock, a second one with no busy timeout tries to write) and returns that error
+// value: a transient "database is locked" as a reader would get it from a long-held lock.
+func GenuineBusy(dir string) (error, error) {
+	ctx := context.Background()
+	db, err := sql.Open("sqlite", "file:"+dir+"/verif-busy-scratch.db?_pragma=busy_timeout(0)")
+	if err != nil {
+		return nil, err
+	}
+	defer db.Close()
+	if _, err := db.ExecContext(ctx, "CREATE TABLE IF NOT EXISTS t (x INTEGER)"); err != nil {
+		return nil, err
+	}
+	holder, err := db.Conn(ctx)
+	if err != nil {
+		return nil, err
+	}
+	defer holder.Close()
+	writer, err := db.Conn(ctx)
+	if err != nil {
+		return nil, err
+	}
+	defer writer.Close()
+	if _, err := holder.ExecContext(ctx, "BEGIN IMMEDIATE"); err != nil {
+		return nil, err
+	}
+	_, busyErr := writer.ExecContext(ctx, "INSERT INTO t VALUES (1)")
+	holder.ExecContext(ctx, "ROLLBACK")
+	if busyErr == nil || !strings.Contains(busyErr.Error(), "SQLITE_BUSY") {
+		return nil, errors.New("could not provoke SQLITE_BUSY: " + errString(busyErr))
+	}
+	return busyErr, nil
+}
+
+func errString(err error) string {
+	if err == nil {
+		return "<nil>"
+	}
+	return err.Error()
 }
